@@ -7,6 +7,7 @@
 //!   rds <hexmsg> <defs> <type>  as rd, with short error messages (the wasm32 default): -> ok | err   (a panic prints `panic`)
 //!   deep <depth> <stack KiB>   a function reference whose result type is a <depth>-deep opt chain, decoded at an equally deep
 //!                            expected type on a thread with that stack -> ok | err | panic
+//!   co <hexmsg> <t1,t2,..>   decode the message at the expected types, re-encode the result at them -> "ok <hex>" | "err"
 //!   st <scenario>   subtype memo scenario (see subtype_case) -> per query "<shared><fresh>"
 //!   dn <hex>        Nat::decode           -> "ok <dec> <consumed>" | "err"
 //!   di <hex>        Int::decode           -> "ok <dec> <consumed>" | "err"
@@ -157,6 +158,7 @@ fn main() {
             "rt" => roundtrip_case(&p[1], &p[2]),
             "st" => subtype_case(&p[1]),
             "deep" => deep_case(p[1].parse().unwrap(), p[2].parse().unwrap()),
+            "co" => coerce_case(&p[1], &p[2]),
             "rd" => refdecode_case(&p[1], &p[2], &p[3]),
             "rds" => refdecode_short(&p[1], &p[2], &p[3]),
             "h" => history_case(&p[1]),
@@ -314,6 +316,8 @@ mod tyx {
                 "nat" => TypeInner::Nat.into(), "int" => TypeInner::Int.into(), "text" => TypeInner::Text.into(),
                 "null" => TypeInner::Null.into(), "reserved" => TypeInner::Reserved.into(), "empty" => TypeInner::Empty.into(),
                 "bool" => TypeInner::Bool.into(), "principal" => TypeInner::Principal.into(),
+                "nat8" => TypeInner::Nat8.into(), "nat16" => TypeInner::Nat16.into(), "nat32" => TypeInner::Nat32.into(), "nat64" => TypeInner::Nat64.into(),
+                "int8" => TypeInner::Int8.into(), "int16" => TypeInner::Int16.into(), "int32" => TypeInner::Int32.into(), "int64" => TypeInner::Int64.into(),
                 "o" => { self.eat(b'('); let t = self.ty(); self.eat(b')'); TypeInner::Opt(t).into() }
                 "v" => { self.eat(b'('); let t = self.ty(); self.eat(b')'); TypeInner::Vec(t).into() }
                 "r" => TypeInner::Record(self.fields()).into(),
@@ -462,5 +466,22 @@ fn deep_case(depth: usize, stack_kb: usize) -> String {
         Ok(Ok(true)) => "ok".to_string(),
         Ok(Ok(false)) => "err".to_string(),
         _ => "panic".to_string(),
+    }
+}
+
+// ---------------------------------------------------------------- coercion: decode at expected types, hand the result back re-encoded
+fn coerce_case(hexmsg: &str, tys: &str) -> String {
+    let bytes = hexd(hexmsg);
+    let env = candid::types::TypeEnv::new();
+    let mut types = Vec::new();
+    for t in tys.split(',').filter(|t| !t.is_empty() && *t != "-") {
+        types.push(tyx::P { s: t.as_bytes(), i: 0 }.ty());
+    }
+    match candid::IDLArgs::from_bytes_with_types(&bytes, &env, &types) {
+        Ok(args) => match args.to_bytes_with_types(&env, &types) {
+            Ok(b) => format!("ok {}", hexe(&b)),
+            Err(e) => format!("REENCODE-ERR {e}"),
+        },
+        Err(_) => "err".to_string(),
     }
 }
